@@ -439,6 +439,23 @@ def rule_keyblob_layout(ctx) -> None:
                                     "__setup1": "obj.add_fac(BeeFacRegion(0x1000, 0x2000, 1))", "__setup2": "obj.add_fac(BeeFacRegion(0x8000, 0x400, 3))"}]),
         ("BeeKIB", [{"kib_key": bytes(range(16)), "kib_iv": bytes(range(16, 32))}]),
     ], floor=3)
+    # the protected region of a PRDB is the bounding box of its FAC regions, in whatever order they were added (update() interpreted)
+    rtb = roundtrip.RoundTrip(ctx, BEE, "BeeProtectRegionBlock")
+    probs = []
+    facs = {"a": (0x1000, 0x800), "b": (0x2000, 0x1000), "c": (0x4000, 0x400)}
+    orders = (("a",), ("a", "b", "c"), ("c", "b", "a"), ("b", "c", "a"), ("b", "a"))
+    for order in orders:
+        obj = rtb.ev("BeeProtectRegionBlock(encr_mode=m, lock_options=0, counter=c)", {"m": mode.CTR, "c": bytes(range(12)) + bytes(4)})
+        for k in order:
+            rtb.ev(f"obj.add_fac(BeeFacRegion({facs[k][0]}, {facs[k][1]}, 1))", {"obj": obj})
+        rtb.ev("obj.update()", {"obj": obj})
+        lo, hi = min(facs[k][0] for k in order), max(facs[k][0] + facs[k][1] for k in order)
+        got = (obj.__dict__.get("_start_addr"), obj.__dict__.get("_end_addr"))
+        if got != (lo, hi):
+            probs.append(f"FAC regions added in order {order}: protected region {tuple(hex(x) if isinstance(x, int) else x for x in got)}, the regions span ({lo:#x}, {hi:#x})")
+    chk.exhaustive_rules.add("C13.prdb-bounding-box")
+    chk.decide(not probs, "C13.prdb-bounding-box", f"{BEE}::BeeProtectRegionBlock.update", f"start / end of the protected region = min start / max end of the FAC regions ({len(orders)} orders of adding)",
+               "; ".join(probs[:2]), "bounding box", A.loc(BEE, rtb.cls.node))
 
 
 def rule_scramble(ctx) -> None:
